@@ -332,6 +332,138 @@ Proof.
   reflexivity.
 Qed.
 
+(* ---------------------------------------------------------------- FLAGS and INTERNALDATE *)
+Lemma env_flag_list : env f_rfc3501_x_flag_list = Some def_rfc3501_x_flag_list. Proof. reflexivity. Qed.
+Lemma env_flag_perm : env f_rfc3501_x_flag_perm = Some def_rfc3501_x_flag_perm. Proof. reflexivity. Qed.
+Lemma env_flag : env f_rfc3501_x_flag = Some def_rfc3501_x_flag. Proof. reflexivity. Qed.
+Lemma env_flag_ext : env f_rfc3501_x_flag_extension = Some def_rfc3501_x_flag_extension. Proof. reflexivity. Qed.
+Lemma env_att_flags : env f_rfc3501_x_msg_att_flags = Some def_rfc3501_x_msg_att_flags. Proof. reflexivity. Qed.
+Lemma env_att_date : env f_rfc3501_x_msg_att_internal_date = Some def_rfc3501_x_msg_att_internal_date. Proof. reflexivity. Qed.
+Lemma env_string_utf8 : env f_core_x_string_utf8 = Some def_core_x_string_utf8. Proof. reflexivity. Qed.
+
+Lemma ascii_run : forall s, forallb (fun b => b <=? 127) s = true -> utf8_run U0 s = U0.
+Proof.
+  induction s as [|c s IH]; intro H; [reflexivity|]. cbn [forallb] in H. apply andb_true_iff in H. destruct H as [Hc Hs].
+  unfold utf8_run. cbn [fold_left]. unfold utf8_step at 2. rewrite Hc. exact (IH Hs).
+Qed.
+Lemma ascii_utf8 s : forallb (fun b => b <=? 127) s = true -> utf8_valid s = true.
+Proof. intro H. unfold utf8_valid. rewrite (ascii_run s H). reflexivity. Qed.
+
+Lemma atom_char_facts b : rfc_ATOM_CHAR b = true ->
+  cls_core_x_is_atom_char b = true /\ cls_core_x_is_astring_char b = true /\ (b <=? 127) = true /\ (b =? 92) = false /\ (b =? 42) = false.
+Proof.
+  intro H. assert (Hb : b < 256).
+  { unfold rfc_ATOM_CHAR in H. apply andb_true_iff in H. destruct H as [H _]. apply rfc_char_small, H. }
+  pose proof (sweep (fun b => implb (rfc_ATOM_CHAR b)
+      (cls_core_x_is_atom_char b && cls_core_x_is_astring_char b && (b <=? 127) && negb (b =? 92) && negb (b =? 42))) ltac:(vm_compute; reflexivity) b Hb) as Hx.
+  cbv beta in Hx. rewrite H in Hx. cbn [implb] in Hx.
+  apply andb_true_iff in Hx. destruct Hx as [Hx H5]. apply andb_true_iff in Hx. destruct Hx as [Hx H4].
+  apply andb_true_iff in Hx. destruct Hx as [Hx H3]. apply andb_true_iff in Hx. destruct Hx as [H1 H2].
+  apply negb_true_iff in H4, H5. repeat split; assumption.
+Qed.
+
+Definition flag_follow (rest : list byte) : Prop := match rest with c :: _ => c = 32 \/ c = 41 | [] => False end.
+
+Lemma flag_follow_stops rest : flag_follow rest ->
+  stops_at cls_core_x_is_atom_char rest /\ stops_at cls_core_x_is_astring_char rest.
+Proof. destruct rest as [|c r]; [intros []|]. intros [-> | ->]; split; reflexivity. Qed.
+
+Lemma rej_tag2 a1 a2 c rest d : (a2 =? c) = false -> REJ (Leaf (LTag [a1; a2])) d (a1 :: c :: rest).
+Proof.
+  intros H b f Hf Hb. destruct f as [|f]; [cbn [need] in Hf; lia|]. rewrite run_S. cbn [step leaf_run tag_scan].
+  unfold eq_case. rewrite N.eqb_refl, H. reflexivity.
+Qed.
+
+Definition flag_item : G := Map (mk_action (PVar "x") (AVar "x")) (Ref f_rfc3501_x_flag_perm DSame).
+
+Lemma ok_flag f w d : enc_flag f w -> OK flag_item d w (VBytes f) flag_follow.
+Proof.
+  intro H. unfold flag_item. eapply ok_map; [|reflexivity].
+  apply (okref _ _ _ _ _ _ _ env_flag_perm). unfold def_rfc3501_x_flag_perm.
+  destruct H as [a Hne Ha | a Hne Ha].
+  - (* keyword flag: an atom *)
+    destruct a as [|c a]; [contradiction|]. cbn [forallb] in Ha. apply andb_true_iff in Ha. destruct Ha as [Hc Ha].
+    destruct (atom_char_facts c Hc) as (_ & Hcs & _ & H92 & _).
+    apply ok_alt_skip.
+    { intros rest _. cbn [app]. apply rej_mapres, rej_tag. rewrite N.eqb_sym. exact H92. }
+    apply ok_alt_here. apply (okref _ _ _ _ _ _ _ env_flag). unfold def_rfc3501_x_flag.
+    apply ok_alt_skip.
+    { intros rest _. cbn [app]. apply (rejref _ _ _ _ _ env_flag_ext). unfold def_rfc3501_x_flag_extension.
+      apply rej_mapres, rej_recognize, rej_seq_head, rej_tag. rewrite N.eqb_sym. exact H92. }
+    apply ok_alt_here. apply (Ok_follow _ _ _ _ _ _ _ (stops_at cls_core_x_is_astring_char)); [|intros r Hr; exact (proj2 (flag_follow_stops r Hr))].
+    eapply ok_mapres.
+    { apply ok_take_while1; [|discriminate]. cbn [forallb]. rewrite Hcs.
+      apply (forallb_impl rfc_ATOM_CHAR); [intros x Hx; exact (proj1 (proj2 (atom_char_facts x Hx))) | exact Ha]. }
+    cbn. unfold native_call. cbn. rewrite ascii_utf8; [reflexivity|].
+    cbn [forallb]. rewrite (proj1 (proj2 (proj2 (atom_char_facts c Hc)))).
+    apply (forallb_impl rfc_ATOM_CHAR); [intros x Hx; exact (proj1 (proj2 (proj2 (atom_char_facts x Hx)))) | exact Ha].
+  - (* "\" atom *)
+    destruct a as [|c a]; [contradiction|]. pose proof Ha as Ha0. cbn [forallb] in Ha. apply andb_true_iff in Ha. destruct Ha as [Hc Ha].
+    destruct (atom_char_facts c Hc) as (_ & _ & _ & _ & H42).
+    apply ok_alt_skip.
+    { intros rest _. cbn [app]. apply rej_mapres. apply (rej_tag2 92 42). rewrite N.eqb_sym. exact H42. }
+    apply ok_alt_here. apply (okref _ _ _ _ _ _ _ env_flag). unfold def_rfc3501_x_flag.
+    apply ok_alt_here. apply (okref _ _ _ _ _ _ _ env_flag_ext). unfold def_rfc3501_x_flag_extension.
+    apply (Ok_follow _ _ _ _ _ _ _ (stops_at cls_core_x_is_atom_char)); [|intros r Hr; exact (proj1 (flag_follow_stops r Hr))].
+    eapply ok_mapres.
+    { eapply ok_recognize. apply ok_seq. regroup ([92] ++ ((c :: a) ++ [])).
+      eapply (okseq_cons _ _ _ _ _ _ _ _ _ _ any (stops_at cls_core_x_is_atom_char)); [apply ok_tag | | intros; exact I].
+      eapply (okseq_cons _ _ _ _ _ _ _ _ _ _ (stops_at cls_core_x_is_atom_char) (stops_at cls_core_x_is_atom_char)); [| apply (okseq_nil _ _ _ _ (stops_at cls_core_x_is_atom_char)) | intros r Hr; exact Hr].
+      apply ok_take_while. apply (forallb_impl rfc_ATOM_CHAR); [intros x Hx; exact (proj1 (atom_char_facts x Hx)) | exact Ha0]. }
+    cbn. unfold native_call. cbn. rewrite ascii_utf8; [reflexivity|].
+    change (forallb (fun b => b <=? 127) (92 :: c :: a) = true). cbn [forallb]. apply andb_true_iff. split; [reflexivity|].
+    apply (forallb_impl rfc_ATOM_CHAR (fun b => b <=? 127) (c :: a)); [intros x Hx; exact (proj1 (proj2 (proj2 (atom_char_facts x Hx)))) | exact Ha0].
+Qed.
+
+Lemma oksep_flags l ws d : enc_flags_more l ws ->
+  OkSep native_call env rk (Leaf (LTag (bs " "))) flag_item d ws l (fun rest => match rest with c :: _ => c = 41 | [] => False end).
+Proof.
+  intro H. induction H as [| f w l ws Hf Hl IH].
+  - apply oksep_nil. intros rest Hr. destruct rest as [|c r]; [destruct Hr|]. subst c. apply rej_tag. reflexivity.
+  - unfold SPb. eapply (oksep_cons _ _ _ _ _ _ _ _ _ _ _ _ any flag_follow).
+    + apply ok_tag.
+    + discriminate.
+    + apply ok_flag, Hf.
+    + exact IH.
+    + intros rest Hr. destruct Hl; cbn [app].
+      * destruct rest as [|c r]; [destruct Hr|]. subst c. right. reflexivity.
+      * left. reflexivity.
+    + intros; exact I.
+Qed.
+
+Lemma ok_flag_list v w d : enc_flag_list v w -> OK (Ref f_rfc3501_x_flag_list DSame) d w v any.
+Proof.
+  intros [| f w0 l ws Hf Hl]; apply (okref _ _ _ _ _ _ _ env_flag_list); unfold def_rfc3501_x_flag_list; fold flag_item.
+  - eapply ok_map.
+    { apply ok_seq. regroup ([40] ++ ([] ++ ([41] ++ []))).
+      eapply (okseq_cons _ _ _ _ _ _ _ _ _ _ any any); [apply ok_tag | | intros; exact I].
+      eapply (okseq_cons _ _ _ _ _ _ _ _ _ _ (fun rest => match rest with c :: _ => c = 41 | [] => False end) any).
+      - apply ok_seplist0_empty. intros rest Hr. destruct rest as [|c r]; [destruct Hr|]. subst c.
+        apply (fails_on_byte native_call env rk rank_ok_all 8). vm_compute. reflexivity.
+      - eapply (okseq_cons _ _ _ _ _ _ _ _ _ _ any any); [apply ok_tag | apply (okseq_nil _ _ _ _ any) | intros; exact I].
+      - intros rest _. reflexivity. }
+    reflexivity.
+  - eapply ok_map.
+    { apply ok_seq. regroup ([40] ++ ((w0 ++ ws) ++ ([41] ++ []))).
+      eapply (okseq_cons _ _ _ _ _ _ _ _ _ _ any any); [apply ok_tag | | intros; exact I].
+      eapply (okseq_cons _ _ _ _ _ _ _ _ _ _ (fun rest => match rest with c :: _ => c = 41 | [] => False end) any).
+      - eapply (ok_seplist0 _ _ _ _ _ _ _ _ _ _ flag_follow).
+        + apply ok_flag, Hf.
+        + apply oksep_flags, Hl.
+        + intros rest Hr. destruct Hl; cbn [app].
+          * destruct rest as [|c r]; [destruct Hr|]. subst c. right. reflexivity.
+          * left. reflexivity.
+      - eapply (okseq_cons _ _ _ _ _ _ _ _ _ _ any any); [apply ok_tag | apply (okseq_nil _ _ _ _ any) | intros; exact I].
+      - intros rest _. reflexivity. }
+    reflexivity.
+Qed.
+
+Lemma ok_string_utf8 s w d : enc_string s w -> utf8_valid s = true -> OK (Ref f_core_x_string_utf8 DSame) d w (VBytes s) any.
+Proof.
+  intros Hs Hu. apply (okref _ _ _ _ _ _ _ env_string_utf8). unfold def_core_x_string_utf8.
+  eapply ok_mapres. { apply ok_string, Hs. } cbn. unfold native_call. cbn. rewrite Hu. reflexivity.
+Qed.
+
 (* ---------------------------------------------------------------- FETCH data items *)
 Lemma env_msg_att : env f_rfc3501_x_msg_att = Some def_rfc3501_x_msg_att. Proof. reflexivity. Qed.
 Lemma env_att_envelope : env f_rfc3501_x_msg_att_envelope = Some def_rfc3501_x_msg_att_envelope. Proof. reflexivity. Qed.
@@ -384,7 +516,8 @@ Ltac skip K Hk := apply (skip_kw _ _ (bs K) _ _ _ _ _ Hk); [vm_compute; reflexiv
 Lemma ok_msg_att v w d : enc_msg_att v w -> OK (Ref f_rfc3501_x_msg_att DSame) d w v nodigit.
 Proof.
   intro H. apply (okref _ _ _ _ _ _ _ env_msg_att). unfold def_rfc3501_x_msg_att.
-  destruct H as [k e w Hk He | k n w Hk Hn | k n w Hk Hn | k v w Hk Hv | k v w Hk Hv | k v w sp Hk Hv Hsp | k n w Hk Hn | k n w Hk Hn];
+  destruct H as [k e w Hk He | k n w Hk Hn | k n w Hk Hn | k v w Hk Hv | k v w Hk Hv | k v w sp Hk Hv Hsp | k n w Hk Hn | k n w Hk Hn
+                 | k v w Hk Hv | k s w Hk Hs Hu];
     unfold kw in Hk.
   - (* ENVELOPE *)
     do 3 skip "ENVELOPE "%string Hk. apply ok_alt_here. apply (Ok_follow _ _ _ _ _ _ _ any); [|intros; exact I].
@@ -446,6 +579,14 @@ Proof.
     { apply (okref _ _ _ _ _ _ _ env_gmail_msgid). unfold def_gmail_x_gmail_msgid.
       apply (ok_kw2 _ _ _ _ _ _ nodigit Hk). apply ok_number_64, Hn. }
     reflexivity.
+  - (* FLAGS *)
+    do 5 skip "FLAGS "%string Hk. apply ok_alt_here. apply (Ok_follow _ _ _ _ _ _ _ any); [|intros; exact I].
+    apply (okref _ _ _ _ _ _ _ env_att_flags). unfold def_rfc3501_x_msg_att_flags.
+    eapply ok_map. { apply (ok_kw2 _ _ _ _ _ _ any Hk). apply ok_flag_list, Hv. } reflexivity.
+  - (* INTERNALDATE *)
+    do 4 skip "INTERNALDATE "%string Hk. apply ok_alt_here. apply (Ok_follow _ _ _ _ _ _ _ any); [|intros; exact I].
+    apply (okref _ _ _ _ _ _ _ env_att_date). unfold def_rfc3501_x_msg_att_internal_date.
+    eapply ok_map. { apply (ok_kw2 _ _ _ _ _ _ any Hk). apply (ok_string_utf8 s w _ Hs Hu). } reflexivity.
 Qed.
 
 (* ---------------------------------------------------------------- the FETCH response, up to the entry point *)
@@ -609,6 +750,738 @@ Proof.
         apply ok_alt_here. apply (ok_fetch_data n wn k a wa l wl _ Hn Hk Ha Hl).
       - eapply (okseq_cons _ _ _ _ _ _ _ _ _ _ any any); [exact Htr | apply (okseq_nil _ _ _ _ any) | intros; exact I]. }
     reflexivity. }
+  apply HOK; [| rewrite ?app_length; cbn [length]; lia | exact I].
+  pose proof fuel_enough as Hf. apply N.leb_le in Hf. exact Hf.
+Qed.
+
+(* ---------------------------------------------------------------- lifting any untagged data item to the entry point *)
+Definition rd_alts : list G :=
+  match def_rfc3501_x_response_data with Map _ (Seq [_; Alt l; _]) => l | _ => [] end.
+Lemma response_data_shape :
+  def_rfc3501_x_response_data = Map (mk_action (PTuple [PWild; PVar "p1"; PWild]) (AVar "p1")) (Seq [Leaf (LTag (bs "* ")); Alt rd_alts; trailer]).
+Proof. reflexivity. Qed.
+
+Definition before_trailer (rest : list byte) : Prop := match rest with c :: _ => c = 32 \/ c = 13 | [] => False end.
+
+Lemma spaces_then_crlf sp rest : enc_spaces sp -> before_trailer (sp ++ [13; 10] ++ rest).
+Proof. intros [|w H]; cbn [app]; [right | left]; reflexivity. Qed.
+
+Theorem untagged_lift_gen body v (F : list byte -> Prop) sp : (forall d, OK (Alt rd_alts) d body v F) ->
+  enc_spaces sp -> (forall rest, F (sp ++ [13; 10] ++ rest)) -> forall rest,
+  parse ((bs "* " ++ body ++ sp ++ [13; 10]) ++ rest) = ROk rest v (nlen (bs "* " ++ body ++ sp ++ [13; 10])).
+Proof.
+  intros Hbody Hsp HF rest. unfold parse.
+  assert (HOK : OK def_parser_x_parse_response 0%nat (bs "* " ++ body ++ sp ++ [13; 10]) v any).
+  { unfold def_parser_x_parse_response.
+    apply ok_alt_skip.
+    { intros r _. cbn [bs N_of_ascii app]. apply (fails_on_byte native_call env rk rank_ok_all 8). vm_compute. reflexivity. }
+    apply ok_alt_here. apply (okref _ _ _ _ _ _ _ env_response_data). rewrite response_data_shape.
+    destruct (ok_trailer sp (apply_darg DSame 0%nat) Hsp) as (_ & Htr & _).
+    eapply ok_map.
+    { apply ok_seq. regroup (bs "* " ++ (body ++ ((sp ++ [13; 10]) ++ []))).
+      eapply (okseq_cons _ _ _ _ _ _ _ _ _ _ any any); [apply ok_tag | | intros; exact I].
+      eapply (okseq_cons _ _ _ _ _ _ _ _ _ _ F any); [apply Hbody | | ].
+      - eapply (okseq_cons _ _ _ _ _ _ _ _ _ _ any any); [exact Htr | apply (okseq_nil _ _ _ _ any) | intros; exact I].
+      - intros r _. match goal with |- F ?x => replace x with (sp ++ [13; 10] ++ r) by app_norm end. apply HF. }
+    reflexivity. }
+  apply HOK; [| rewrite ?app_length; cbn [length]; lia | exact I].
+  pose proof fuel_enough as Hf. apply N.leb_le in Hf. exact Hf.
+Qed.
+
+Theorem untagged_lift body v : (forall d, OK (Alt rd_alts) d body v before_trailer) ->
+  forall sp rest, enc_spaces sp ->
+  parse ((bs "* " ++ body ++ sp ++ [13; 10]) ++ rest) = ROk rest v (nlen (bs "* " ++ body ++ sp ++ [13; 10])).
+Proof.
+  intros Hbody sp rest Hsp. apply (untagged_lift_gen body v before_trailer sp Hbody Hsp). intro r. apply spaces_then_crlf, Hsp.
+Qed.
+
+(* ---------------------------------------------------------------- n EXISTS / n RECENT / n EXPUNGE *)
+Lemma rej_mailbox_data_num n wn K k rest d : enc_number 32 n wn -> same_nocase (32 :: K) k = true ->
+  nocase_mismatch (bs " EXISTS") (32 :: K) = true -> nocase_mismatch (bs " RECENT") (32 :: K) = true ->
+  REJ (Ref f_rfc3501_x_mailbox_data DSame) d (wn ++ k ++ rest).
+Proof.
+  intros Hn Hk M1 M2. apply (rejref _ _ _ _ _ env_mailbox_data). unfold def_rfc3501_x_mailbox_data.
+  destruct (enc_number_head _ _ _ Hn) as (c & r & Ew & Hc).
+  assert (Hdig : forall g, forallb (fun c => fails_on env 8 g [c]) digits10 = true -> REJ g (apply_darg DSame d) (wn ++ k ++ rest)).
+  { intros g Hg. rewrite Ew. cbn [app]. apply rej_on_digit; assumption. }
+  apply rej_alt_cons; [apply Hdig; vm_compute; reflexivity|].
+  apply rej_alt_cons.
+  { apply (rejref _ _ _ _ _ env_md_exists). unfold def_rfc3501_x_mailbox_data_exists. apply rej_map, rej_map.
+    apply (rej_num_kw _ _ _ K _ _ _ Hn Hk M1). }
+  do 3 (apply rej_alt_cons; [apply Hdig; vm_compute; reflexivity|]).
+  apply rej_alt_cons.
+  { apply (rejref _ _ _ _ _ env_md_recent). unfold def_rfc3501_x_mailbox_data_recent. apply rej_map, rej_map.
+    apply (rej_num_kw _ _ _ K _ _ _ Hn Hk M2). }
+  do 4 (apply rej_alt_cons; [apply Hdig; vm_compute; reflexivity|]).
+  apply rej_alt_nil.
+Qed.
+
+Lemma ok_num_kw s n wn k d : enc_number 32 n wn -> same_nocase (32 :: s) k = true ->
+  OK (Map (mk_action (PTuple [PVar "p0"; PWild]) (AVar "p0")) (Seq [Ref f_core_x_number DSame; Leaf (LTagNC (32 :: s))])) d (wn ++ k) (VNum n) any.
+Proof.
+  intros Hn Hk. destruct (kw_space_first _ _ Hk) as [r Ek]. eapply ok_map.
+  { apply ok_seq. regroup (wn ++ (k ++ [])).
+    eapply (okseq_cons _ _ _ _ _ _ _ _ _ _ nodigit any); [apply ok_number, Hn | | intros rest _; rewrite Ek; reflexivity].
+    eapply (okseq_cons _ _ _ _ _ _ _ _ _ _ any any); [apply ok_tag_nc, Hk | apply (okseq_nil _ _ _ _ any) | intros; exact I]. }
+  reflexivity.
+Qed.
+
+Lemma rd_alts_unfold : rd_alts = match def_rfc3501_x_response_data with Map _ (Seq [_; Alt l; _]) => l | _ => [] end.
+Proof. reflexivity. Qed.
+
+Lemma ok_untagged_numeric v body d : 
+  (exists n w k, enc_number 32 n w /\ body = w ++ k /\
+     ((kw " EXISTS" k /\ v = VCon "Response::MailboxData" [VCon "MailboxDatum::Exists" [VNum n]]) \/
+      (kw " RECENT" k /\ v = VCon "Response::MailboxData" [VCon "MailboxDatum::Recent" [VNum n]]) \/
+      (kw " EXPUNGE" k /\ v = VCon "Response::Expunge" [VNum n]))) ->
+  OK (Alt rd_alts) d body v before_trailer.
+Proof.
+  intros (n & w & k & Hn & -> & Hcase). apply (Ok_follow _ _ _ _ _ _ _ any); [|intros; exact I].
+  destruct (enc_number_head _ _ _ Hn) as (c & r & Ew & Hc).
+  unfold rd_alts. cbn [def_rfc3501_x_response_data].
+  (* resp_cond never starts with a digit *)
+  apply ok_alt_skip.
+  { intros r0 _. rewrite Ew. cbn [app]. apply rej_on_digit; [vm_compute; reflexivity | exact Hc]. }
+  destruct Hcase as [[Hk ->] | [[Hk ->] | [Hk ->]]]; unfold kw in Hk.
+  - (* EXISTS: mailbox_data, second alternative *)
+    apply ok_alt_here. eapply ok_map.
+    { apply (okref _ _ _ _ _ _ _ env_mailbox_data). unfold def_rfc3501_x_mailbox_data.
+      apply ok_alt_skip.
+      { intros r0 _. rewrite Ew. cbn [app]. apply rej_on_digit; [vm_compute; reflexivity | exact Hc]. }
+      apply ok_alt_here. apply (okref _ _ _ _ _ _ _ env_md_exists). unfold def_rfc3501_x_mailbox_data_exists.
+      eapply ok_map. { apply (ok_num_kw (bs "EXISTS") n w k _ Hn Hk). } reflexivity. }
+    reflexivity.
+  - (* RECENT *)
+    apply ok_alt_here. eapply ok_map.
+    { apply (okref _ _ _ _ _ _ _ env_mailbox_data). unfold def_rfc3501_x_mailbox_data.
+      apply ok_alt_skip.
+      { intros r0 _. rewrite Ew. cbn [app]. apply rej_on_digit; [vm_compute; reflexivity | exact Hc]. }
+      apply ok_alt_skip.
+      { intros r0 _. apply (rejref _ _ _ _ _ env_md_exists). unfold def_rfc3501_x_mailbox_data_exists. apply rej_map, rej_map.
+        rewrite <- app_assoc. apply (rej_num_kw _ _ _ (bs "RECENT") _ _ _ Hn Hk). vm_compute. reflexivity. }
+      do 3 (apply ok_alt_skip; [intros r0 _; rewrite Ew; cbn [app]; apply rej_on_digit; [vm_compute; reflexivity | exact Hc]|]).
+      apply ok_alt_here. apply (okref _ _ _ _ _ _ _ env_md_recent). unfold def_rfc3501_x_mailbox_data_recent.
+      eapply ok_map. { apply (ok_num_kw (bs "RECENT") n w k _ Hn Hk). } reflexivity. }
+    reflexivity.
+  - (* EXPUNGE *)
+    apply ok_alt_skip.
+    { intros r0 _. apply rej_map. rewrite <- app_assoc.
+      apply (rej_mailbox_data_num n w (bs "EXPUNGE") k r0 _ Hn Hk); vm_compute; reflexivity. }
+    apply ok_alt_here. eapply ok_map.
+    { apply (okref _ _ _ _ _ _ _ env_expunge). unfold def_rfc3501_x_message_data_expunge. apply (ok_num_kw (bs "EXPUNGE") n w k _ Hn Hk). }
+    reflexivity.
+Qed.
+
+(* ---------------------------------------------------------------- VANISHED and sequence sets (RFC 7162) *)
+Lemma env_sequence_set : env f_core_x_sequence_set = Some def_core_x_sequence_set. Proof. reflexivity. Qed.
+Lemma env_sequence_range : env f_core_x_sequence_range = Some def_core_x_sequence_range. Proof. reflexivity. Qed.
+Lemma env_vanished : env f_rfc7162_x_resp_vanished = Some def_rfc7162_x_resp_vanished. Proof. reflexivity. Qed.
+
+Definition seq_item_g : G :=
+  Alt [(Ref f_core_x_sequence_range DSame);
+       (Map (mk_action (PVar "n") (ACon "RangeInclusive" [AVar "n"; AVar "n"])) (Ref f_core_x_number DSame))].
+
+(* after an item: not a digit and not a colon *)
+Definition item_follow (rest : list byte) : Prop :=
+  match rest with c :: _ => nom_is_digit c = false /\ (58 =? c) = false | [] => False end.
+
+Lemma ok_seq_item v w d : enc_seq_item v w -> OK seq_item_g d w v item_follow.
+Proof.
+  intros [n w0 Hn | a b wa wb Ha Hb]; unfold seq_item_g.
+  - apply ok_alt_skip.
+    + intros rest Hr. apply (rejref _ _ _ _ _ env_sequence_range). unfold def_core_x_sequence_range. apply rej_map.
+      destruct rest as [|c r]; [destruct Hr|]. destruct Hr as [Hd Hc].
+      eapply (rej_seq_after _ _ _ _ _ _ _ _ nodigit).
+      * apply ok_number, Hn.
+      * exact Hd.
+      * apply rejseq_head. apply rej_tag. exact Hc.
+    + apply ok_alt_here. apply (Ok_follow _ _ _ _ _ _ _ nodigit).
+      * eapply ok_map. { apply ok_number, Hn. } reflexivity.
+      * intros r Hr. destruct r as [|c r]; [destruct Hr|]. exact (proj1 Hr).
+  - apply ok_alt_here. apply (Ok_follow _ _ _ _ _ _ _ nodigit).
+    + apply (okref _ _ _ _ _ _ _ env_sequence_range). unfold def_core_x_sequence_range.
+      eapply ok_map.
+      { apply ok_seq. regroup (wa ++ ([58] ++ (wb ++ []))).
+        eapply (okseq_cons _ _ _ _ _ _ _ _ _ _ nodigit nodigit); [apply ok_number, Ha | | intros rest _; reflexivity].
+        eapply (okseq_cons _ _ _ _ _ _ _ _ _ _ any nodigit); [apply ok_tag | | intros; exact I].
+        eapply (okseq_cons _ _ _ _ _ _ _ _ _ _ nodigit nodigit); [apply ok_number, Hb | apply (okseq_nil _ _ _ _ nodigit) | intros r Hr; exact Hr]. }
+      reflexivity.
+    + intros r Hr. destruct r as [|c r]; [destruct Hr|]. exact (proj1 Hr).
+Qed.
+
+Lemma enc_seq_item_head v w : enc_seq_item v w -> exists c r, w = c :: r /\ nom_is_digit c = true.
+Proof.
+  intros [n w0 Hn | a b wa wb Ha Hb].
+  - exact (enc_number_head _ _ _ Hn).
+  - destruct (enc_number_head _ _ _ Ha) as (c & r & -> & Hc). cbn [app]. eexists _, _. split; [reflexivity | exact Hc].
+Qed.
+
+Lemma oksep_seq l ws d : enc_seq_more l ws ->
+  OkSep native_call env rk (Leaf (LTag (bs ","))) seq_item_g d ws l before_trailer.
+Proof.
+  intro H. induction H as [| v l w ws Hv Hl IH].
+  - apply oksep_nil. intros rest Hr. destruct rest as [|c r]; [destruct Hr|]. apply rej_tag. destruct Hr as [-> | ->]; reflexivity.
+  - eapply (oksep_cons _ _ _ _ _ _ _ _ _ _ _ _ any item_follow before_trailer).
+    + apply ok_tag.
+    + discriminate.
+    + apply ok_seq_item, Hv.
+    + exact IH.
+    + intros rest Hr. destruct Hl; cbn [app].
+      * destruct rest as [|c r]; [destruct Hr|]. destruct Hr as [-> | ->]; split; reflexivity.
+      * split; reflexivity.
+    + intros; exact I.
+Qed.
+
+Lemma ok_sequence_set v l w wl d : enc_seq_item v w -> enc_seq_more l wl ->
+  OK (Ref f_core_x_sequence_set DSame) d (w ++ wl) (VList (v :: l)) before_trailer.
+Proof.
+  intros Hv Hl. apply (okref _ _ _ _ _ _ _ env_sequence_set). unfold def_core_x_sequence_set. fold seq_item_g.
+  eapply (ok_seplist1 _ _ _ _ _ _ _ _ _ _ item_follow before_trailer).
+  - apply ok_seq_item, Hv.
+  - apply oksep_seq, Hl.
+  - intros rest Hr. destruct Hl; cbn [app].
+    + destruct rest as [|c r]; [destruct Hr|]. destruct Hr as [-> | ->]; split; reflexivity.
+    + split; reflexivity.
+Qed.
+
+Lemma ok_ws1 ws d : enc_ws1 ws -> OK (Leaf (LTakeWhile1 nom_is_space)) d ws (VBytes ws) (stops_at nom_is_space).
+Proof. intros [w Hne Hw]. apply ok_take_while1; assumption. Qed.
+
+Lemma digit_not_space c : nom_is_digit c = true -> nom_is_space c = false.
+Proof.
+  unfold nom_is_digit, nom_is_space. intro H. apply andb_true_iff in H. destruct H as [A B]. apply N.leb_le in A, B.
+  apply orb_false_iff. split; apply N.eqb_neq; lia.
+Qed.
+
+Lemma range_val_norm a b : range_val a b = range_norm a b.
+Proof. reflexivity. Qed.
+
+Lemma ok_vanished v body d : (exists k earlier ke ws vi l w wl, body = k ++ ke ++ ws ++ w ++ wl /\
+    v = VRec "Response::Vanished" [("earlier"%string, VBool earlier); ("uids"%string, VList (vi :: l))] /\ kw "VANISHED" k /\
+    ((earlier = true /\ (exists s e, ke = s ++ e /\ enc_ws1 s /\ kw "(EARLIER)" e)) \/ (earlier = false /\ ke = [])) /\
+    enc_ws1 ws /\ enc_seq_item vi w /\ enc_seq_more l wl) ->
+  OK (Alt rd_alts) d body v before_trailer.
+Proof.
+  intros (k & earlier & ke & ws & vi & l & w & wl & -> & -> & Hk & Hke & Hws & Hvi & Hl). unfold kw in Hk.
+  unfold rd_alts. cbn [def_rfc3501_x_response_data].
+  do 8 (apply (skip_kw _ _ (bs "VANISHED") _ _ _ _ _ Hk); [vm_compute; reflexivity|]).
+  apply ok_alt_here. apply (okref _ _ _ _ _ _ _ env_vanished). unfold def_rfc7162_x_resp_vanished.
+  destruct (enc_seq_item_head _ _ Hvi) as (c & r & Ew & Hc).
+  destruct Hke as [[-> (s & e & -> & Hs & He)] | [-> ->]].
+  - (* (EARLIER) present *)
+    unfold kw in He.
+    assert (He1 : exists r1, e = 40 :: r1).
+    { destruct e as [|x r1]; [discriminate|]. cbn [bs N_of_ascii same_nocase] in He. apply andb_true_iff in He. destruct He as [Hx _].
+      destruct (lower_variants _ _ Hx) as [<- | []]. exists r1. reflexivity. }
+    destruct He1 as [r1 Ee].
+    eapply ok_map.
+    { apply ok_seq. regroup (k ++ ((s ++ (e ++ [])) ++ (ws ++ ((w ++ wl) ++ [])))).
+      eapply (okseq_cons _ _ _ _ _ _ _ _ _ _ any before_trailer); [apply ok_tag_nc, Hk | | intros; exact I].
+      eapply (okseq_cons _ _ _ _ _ _ _ _ _ _ any before_trailer); [| | intros; exact I].
+      - apply ok_opt_some. apply ok_seq.
+        eapply (okseq_cons _ _ _ _ _ _ _ _ _ _ (stops_at nom_is_space) any); [apply ok_ws1, Hs | | intros rest _; rewrite Ee; reflexivity].
+        eapply (okseq_cons _ _ _ _ _ _ _ _ _ _ any any); [apply ok_tag_nc, He | apply (okseq_nil _ _ _ _ any) | intros; exact I].
+      - eapply (okseq_cons _ _ _ _ _ _ _ _ _ _ (stops_at nom_is_space) before_trailer); [apply ok_ws1, Hws | | ].
+        + eapply (okseq_cons _ _ _ _ _ _ _ _ _ _ before_trailer before_trailer); [apply (ok_sequence_set vi l w wl _ Hvi Hl) | apply (okseq_nil _ _ _ _ before_trailer) | intros r0 Hr0; exact Hr0].
+        + intros rest _. rewrite Ew. cbn [app]. apply digit_not_space, Hc. }
+    reflexivity.
+  - (* no (EARLIER): the optional group is tried (spaces are consumed) and turned down by the digit *)
+    eapply ok_map.
+    { apply ok_seq. regroup (k ++ ([] ++ (ws ++ ((w ++ wl) ++ [])))).
+      eapply (okseq_cons _ _ _ _ _ _ _ _ _ _ any before_trailer); [apply ok_tag_nc, Hk | | intros; exact I].
+      eapply (okseq_cons _ _ _ _ _ _ _ _ _ _ (fun rest => exists r2, rest = ws ++ c :: r2) before_trailer).
+      - apply ok_opt_none. intros rest (r2 & ->).
+        eapply (rej_seq_after _ _ _ _ _ _ _ _ (stops_at nom_is_space)).
+        + apply ok_ws1, Hws.
+        + cbn. apply digit_not_space, Hc.
+        + apply rejseq_head. apply rej_tag_nc.
+          assert (Hlt : c < 256) by (unfold nom_is_digit in Hc; apply andb_true_iff in Hc; destruct Hc as [_ B]; apply N.leb_le in B; lia).
+          pose proof (sweep (fun c => implb (nom_is_digit c) (negb (eq_nocase1 40 c))) ltac:(vm_compute; reflexivity) c Hlt) as Hx.
+          cbv beta in Hx. rewrite Hc in Hx. cbn [implb] in Hx. apply negb_true_iff in Hx. exact Hx.
+      - eapply (okseq_cons _ _ _ _ _ _ _ _ _ _ (stops_at nom_is_space) before_trailer); [apply ok_ws1, Hws | | ].
+        + eapply (okseq_cons _ _ _ _ _ _ _ _ _ _ before_trailer before_trailer); [apply (ok_sequence_set vi l w wl _ Hvi Hl) | apply (okseq_nil _ _ _ _ before_trailer) | intros r0 Hr0; exact Hr0].
+        + intros rest _. rewrite Ew. cbn [app]. apply digit_not_space, Hc.
+      - intros rest _. rewrite Ew. repeat rewrite <- app_assoc. cbn [app]. eexists. reflexivity. }
+    reflexivity.
+Qed.
+
+Theorem untagged_roundtrip v w : enc_untagged_response v w -> forall rest, parse (w ++ rest) = ROk rest v (nlen w).
+Proof.
+  intros [v0 body sp Hb Hsp] rest. apply untagged_lift; [|exact Hsp]. intro d.
+  destruct Hb as [n w0 k Hn Hk | n w0 k Hn Hk | n w0 k Hn Hk | k earlier ke ws vi l w0 wl Hk Hke Hws Hvi Hl].
+  - apply ok_untagged_numeric. exists n, w0, k. split; [exact Hn|]. split; [reflexivity|]. left. split; [exact Hk | reflexivity].
+  - apply ok_untagged_numeric. exists n, w0, k. split; [exact Hn|]. split; [reflexivity|]. right. left. split; [exact Hk | reflexivity].
+  - apply ok_untagged_numeric. exists n, w0, k. split; [exact Hn|]. split; [reflexivity|]. right. right. split; [exact Hk | reflexivity].
+  - apply ok_vanished. exists k, earlier, ke, ws, vi, l, w0, wl.
+    split; [reflexivity|]. split; [reflexivity|]. split; [exact Hk|]. split; [exact Hke|]. split; [exact Hws|]. split; [exact Hvi | exact Hl].
+Qed.
+
+
+(* ---------------------------------------------------------------- QUOTA (RFC 2087): name, usage, limit in their slots *)
+Lemma env_quota : env f_rfc2087_x_quota = Some def_rfc2087_x_quota. Proof. reflexivity. Qed.
+Lemma env_quota_list : env f_rfc2087_x_quota_list = Some def_rfc2087_x_quota_list. Proof. reflexivity. Qed.
+Lemma env_quota_resource : env f_rfc2087_x_quota_resource = Some def_rfc2087_x_quota_resource. Proof. reflexivity. Qed.
+Lemma env_quota_resource_name : env f_rfc2087_x_quota_resource_name = Some def_rfc2087_x_quota_resource_name. Proof. reflexivity. Qed.
+Lemma env_astring_utf8 : env f_core_x_astring_utf8 = Some def_core_x_astring_utf8. Proof. reflexivity. Qed.
+
+Lemma ok_astring_utf8 s w d : enc_astring s w -> utf8_valid s = true ->
+  OK (Ref f_core_x_astring_utf8 DSame) d w (VBytes s) (stops_at cls_core_x_is_astring_char).
+Proof.
+  intros Hs Hu. apply (okref _ _ _ _ _ _ _ env_astring_utf8). unfold def_core_x_astring_utf8.
+  eapply ok_mapres. { apply ok_astring, Hs. } cbn. unfold native_call. cbn. rewrite Hu. reflexivity.
+Qed.
+
+Lemma same_nocase_eq_nocase s w : same_nocase s w = true -> eq_nocase w s = true.
+Proof.
+  revert w; induction s as [|a s IH]; intros [|b w] H; try discriminate; [reflexivity|].
+  cbn [same_nocase] in H. apply andb_true_iff in H. destruct H as [H1 H2].
+  unfold eq_nocase. cbn [list_eqb]. unfold eq_nocase1 in H1. rewrite N.eqb_sym, H1. exact (IH w H2).
+Qed.
+
+(* a keyword spelled in any case is still made of atom characters when the keyword is alphabetic *)
+Lemma kw_alpha_chars K w : forallb (fun b => (65 <=? b) && (b <=? 90)) K = true -> same_nocase K w = true ->
+  forallb cls_core_x_is_astring_char w = true /\ forallb (fun b => b <=? 127) w = true.
+Proof.
+  revert w; induction K as [|a K IH]; intros [|b w] HK H; try discriminate; [split; reflexivity|].
+  cbn [forallb] in HK. apply andb_true_iff in HK. destruct HK as [Ha HK].
+  cbn [same_nocase] in H. apply andb_true_iff in H. destruct H as [Hab H].
+  destruct (IH w HK H) as [I1 I2]. cbn [forallb]. rewrite I1, I2.
+  assert (Hb : b = lower a \/ b = lower a - 32).
+  { pose proof (lower_variants a b Hab) as Hin. unfold variants in Hin. cbv zeta in Hin.
+    destruct ((97 <=? lower a) && (lower a <=? 122)); cbn [In] in Hin.
+    - destruct Hin as [E | [E | []]]; [left | right]; symmetry; exact E.
+    - destruct Hin as [E | []]. left. symmetry. exact E. }
+  apply andb_true_iff in Ha. destruct Ha as [A1 A2]. apply N.leb_le in A1, A2.
+  assert (Hl : lower a = a + 32) by (unfold lower, is_upper; replace ((65 <=? a) && (a <=? 90)) with true by (symmetry; apply andb_true_iff; split; apply N.leb_le; lia); reflexivity).
+  assert (Hlt : b < 256) by (destruct Hb as [-> | ->]; lia).
+  pose proof (sweep (fun b => implb (((65 <=? b) && (b <=? 90)) || ((97 <=? b) && (b <=? 122))) (cls_core_x_is_astring_char b && (b <=? 127))) ltac:(vm_compute; reflexivity) b Hlt) as Hx.
+  cbv beta in Hx.
+  assert (Hrange : (((65 <=? b) && (b <=? 90)) || ((97 <=? b) && (b <=? 122))) = true).
+  { apply orb_true_iff. destruct Hb as [-> | ->]; [right | left]; apply andb_true_iff; split; apply N.leb_le; lia. }
+  rewrite Hrange in Hx. cbn [implb] in Hx. apply andb_true_iff in Hx. destruct Hx as [X1 X2]. rewrite X1, X2. split; reflexivity.
+Qed.
+
+Lemma ok_quota_name v w d : enc_quota_name v w -> OK (Ref f_rfc2087_x_quota_resource_name DSame) d w v (stops_at cls_core_x_is_astring_char).
+Proof.
+  intro H. apply (okref _ _ _ _ _ _ _ env_quota_resource_name). unfold def_rfc2087_x_quota_resource_name.
+  assert (Hgen : forall a, a <> [] -> forallb cls_core_x_is_astring_char a = true -> forallb (fun b => b <=? 127) a = true ->
+            OK (Ref f_core_x_astring_utf8 DSame) (apply_darg DSame d) a (VBytes a) (stops_at cls_core_x_is_astring_char)).
+  { intros a Hne Hc H7. apply (okref _ _ _ _ _ _ _ env_astring_utf8). unfold def_core_x_astring_utf8.
+    eapply ok_mapres.
+    { apply (okref _ _ _ _ _ _ _ env_astring). unfold def_core_x_astring. apply ok_alt_here. apply ok_take_while1; assumption. }
+    cbn. unfold native_call. cbn. rewrite (ascii_utf8 a H7). reflexivity. }
+  destruct H as [w Hk | w Hk | a Hne Ha N1 N2]; unfold kw in *.
+  - destruct (kw_alpha_chars (bs "STORAGE") w ltac:(reflexivity) Hk) as [C1 C2].
+    eapply ok_map. { apply Hgen; [destruct w; [discriminate|discriminate] | exact C1 | exact C2]. }
+    cbn. unfold native_call. cbn. unfold classify_quota_name. rewrite (same_nocase_eq_nocase _ _ Hk). reflexivity.
+  - destruct (kw_alpha_chars (bs "MESSAGE") w ltac:(reflexivity) Hk) as [C1 C2].
+    eapply ok_map. { apply Hgen; [destruct w; [discriminate|discriminate] | exact C1 | exact C2]. }
+    cbn. unfold native_call. cbn. unfold classify_quota_name.
+    destruct (eq_nocase w (bs "STORAGE")) eqn:E.
+    + (* a word cannot be both *)
+      exfalso. clear - Hk E. unfold eq_nocase in E.
+      destruct w as [|c0 w]; [discriminate|]. cbn [bs N_of_ascii same_nocase list_eqb] in Hk, E.
+      apply andb_true_iff in Hk. destruct Hk as [Hk _]. apply andb_true_iff in E. destruct E as [E _].
+      unfold eq_nocase1 in Hk. apply N.eqb_eq in Hk, E. rewrite E in Hk. discriminate Hk.
+    + rewrite (same_nocase_eq_nocase _ _ Hk). reflexivity.
+  - eapply ok_map.
+    { apply Hgen; [exact Hne | |].
+      - apply (forallb_impl rfc_ATOM_CHAR); [intros x Hx; exact (proj1 (proj2 (atom_char_facts x Hx))) | exact Ha].
+      - apply (forallb_impl rfc_ATOM_CHAR); [intros x Hx; exact (proj1 (proj2 (proj2 (atom_char_facts x Hx)))) | exact Ha]. }
+    cbn. unfold native_call. cbn. unfold classify_quota_name. rewrite N1, N2. reflexivity.
+Qed.
+
+Definition ws_g : G := Leaf (LTakeWhile1 nom_is_space).
+Definition notspace : list byte -> Prop := stops_at nom_is_space.
+
+Lemma enc_quota_name_head v w : enc_quota_name v w -> exists c r, w = c :: r /\ nom_is_space c = false.
+Proof.
+  assert (Hkw : forall K w1, forallb (fun b => (65 <=? b) && (b <=? 90)) K = true -> K <> [] -> same_nocase K w1 = true ->
+             exists c r, w1 = c :: r /\ nom_is_space c = false).
+  { intros K w1 HK Hne Hs. destruct (kw_alpha_chars K w1 HK Hs) as [C _]. destruct w1 as [|c r]; [destruct K; [contradiction|discriminate]|].
+    exists c, r. split; [reflexivity|]. cbn [forallb] in C. apply andb_true_iff in C. destruct C as [C _].
+    destruct (nom_is_space c) eqn:E; [|reflexivity]. unfold nom_is_space in E. apply orb_true_iff in E.
+    destruct E as [E | E]; apply N.eqb_eq in E; subst c; discriminate C. }
+  intros [w0 Hk | w0 Hk | a Hne Ha _ _].
+  - apply (Hkw (bs "STORAGE")); [reflexivity | discriminate | exact Hk].
+  - apply (Hkw (bs "MESSAGE")); [reflexivity | discriminate | exact Hk].
+  - destruct a as [|c r]; [contradiction|]. exists c, r. split; [reflexivity|].
+    cbn [forallb] in Ha. apply andb_true_iff in Ha. destruct Ha as [Hc _]. destruct (atom_char_facts c Hc) as (_ & C & _).
+    destruct (nom_is_space c) eqn:E; [|reflexivity]. unfold nom_is_space in E. apply orb_true_iff in E.
+    destruct E as [E | E]; apply N.eqb_eq in E; subst c; discriminate C.
+Qed.
+
+Lemma ws1_head s : enc_ws1 s -> exists c r, s = c :: r /\ nom_is_space c = true /\ nom_is_digit c = false /\ cls_core_x_is_astring_char c = false.
+Proof.
+  intros [w Hne Hw]. destruct w as [|c r]; [contradiction|]. exists c, r. split; [reflexivity|].
+  cbn [forallb] in Hw. apply andb_true_iff in Hw. destruct Hw as [Hc _]. split; [exact Hc|].
+  apply orb_true_iff in Hc. destruct Hc as [E | E]; apply N.eqb_eq in E; subst c; split; reflexivity.
+Qed.
+
+Definition res_follow (rest : list byte) : Prop := match rest with c :: _ => nom_is_digit c = false | [] => False end.
+
+Lemma ok_quota_resource v w d : enc_quota_resource v w -> OK (Ref f_rfc2087_x_quota_resource DSame) d w v nodigit.
+Proof.
+  intros [name wn s1 usage wu s2 limit wl Hn H1 Hu H2 Hl]. apply (okref _ _ _ _ _ _ _ env_quota_resource). unfold def_rfc2087_x_quota_resource.
+  destruct (ws1_head _ H1) as (c1 & r1 & E1 & _ & _ & A1). destruct (ws1_head _ H2) as (c2 & r2 & E2 & _ & D2 & _).
+  destruct (enc_number_head _ _ _ Hu) as (cu & ru & Eu & Du). destruct (enc_number_head _ _ _ Hl) as (cl & rl & El & Dl).
+  eapply ok_map.
+  { apply ok_seq. regroup (wn ++ (s1 ++ (wu ++ (s2 ++ (wl ++ []))))). fold ws_g.
+    eapply (okseq_cons _ _ _ _ _ _ _ _ _ _ (stops_at cls_core_x_is_astring_char) nodigit); [apply ok_quota_name, Hn | | intros rest _; rewrite E1; exact A1].
+    eapply (okseq_cons _ _ _ _ _ _ _ _ _ _ notspace nodigit); [apply ok_ws1, H1 | | intros rest _; rewrite Eu; apply digit_not_space, Du].
+    eapply (okseq_cons _ _ _ _ _ _ _ _ _ _ nodigit nodigit); [apply ok_number_64, Hu | | intros rest _; rewrite E2; exact D2].
+    eapply (okseq_cons _ _ _ _ _ _ _ _ _ _ notspace nodigit); [apply ok_ws1, H2 | | intros rest _; rewrite El; apply digit_not_space, Dl].
+    eapply (okseq_cons _ _ _ _ _ _ _ _ _ _ nodigit nodigit); [apply ok_number_64, Hl | apply (okseq_nil _ _ _ _ nodigit) | intros r Hr; exact Hr]. }
+  reflexivity.
+Qed.
+
+Lemma enc_quota_resource_head v w : enc_quota_resource v w -> exists c r, w = c :: r /\ nom_is_space c = false.
+Proof.
+  intros [name wn s1 usage wu s2 limit wl Hn _ _ _ _]. destruct (enc_quota_name_head _ _ Hn) as (c & r & -> & Hc).
+  cbn [app]. eexists _, _. split; [reflexivity | exact Hc].
+Qed.
+
+Lemma oksep_quota l ws d : enc_quota_more l ws ->
+  OkSep native_call env rk ws_g (Ref f_rfc2087_x_quota_resource DSame) d ws l closes.
+Proof.
+  intro H. induction H as [| r l s w ws Hs Hr Hl IH].
+  - apply oksep_nil. intros rest Hr. destruct rest as [|c r]; [destruct Hr|]. cbn in Hr. subst c. apply rej_take_while1. reflexivity.
+  - destruct (enc_quota_resource_head _ _ Hr) as (c & r0 & Ew & Hc).
+    eapply (oksep_cons _ _ _ _ _ _ _ _ _ _ _ _ notspace nodigit closes).
+    + apply ok_ws1, Hs.
+    + destruct Hs as [w0 Hne _]. exact Hne.
+    + apply ok_quota_resource, Hr.
+    + exact IH.
+    + intros rest Hr0. destruct Hl as [| r1 l1 s1 w1 ws1 Hs1 _ _]; cbn [app].
+      * destruct rest as [|x rr]; [destruct Hr0|]. cbn in Hr0. subst x. reflexivity.
+      * destruct (ws1_head _ Hs1) as (cs & rs & -> & _ & D & _). cbn [app]. exact D.
+    + intros rest _. rewrite Ew. cbn [app]. exact Hc.
+Qed.
+
+Lemma ok_quota_list v w d : enc_quota_list v w -> OK (Ref f_rfc2087_x_quota_list DSame) d w v any.
+Proof.
+  intros [| r w0 l ws Hr Hl]; apply (okref _ _ _ _ _ _ _ env_quota_list); unfold def_rfc2087_x_quota_list; fold ws_g.
+  - eapply ok_map.
+    { apply ok_seq. regroup ([40] ++ ([] ++ ([41] ++ []))).
+      eapply (okseq_cons _ _ _ _ _ _ _ _ _ _ any any); [apply ok_tag | | intros; exact I].
+      eapply (okseq_cons _ _ _ _ _ _ _ _ _ _ closes any).
+      - apply ok_seplist0_empty. intros rest Hr. destruct rest as [|c r]; [destruct Hr|]. cbn in Hr. subst c.
+        apply (fails_on_byte native_call env rk rank_ok_all 8). vm_compute. reflexivity.
+      - eapply (okseq_cons _ _ _ _ _ _ _ _ _ _ any any); [apply ok_tag | apply (okseq_nil _ _ _ _ any) | intros; exact I].
+      - intros rest _. reflexivity. }
+    reflexivity.
+  - eapply ok_map.
+    { apply ok_seq. regroup ([40] ++ ((w0 ++ ws) ++ ([41] ++ []))).
+      eapply (okseq_cons _ _ _ _ _ _ _ _ _ _ any any); [apply ok_tag | | intros; exact I].
+      eapply (okseq_cons _ _ _ _ _ _ _ _ _ _ closes any).
+      - eapply (ok_seplist0 _ _ _ _ _ _ _ _ _ _ nodigit closes).
+        + apply ok_quota_resource, Hr.
+        + apply oksep_quota, Hl.
+        + intros rest Hr0. destruct Hl as [| r1 l1 s1 w1 ws1 Hs1 _ _]; cbn [app].
+          * destruct rest as [|x rr]; [destruct Hr0|]. cbn in Hr0. subst x. reflexivity.
+          * destruct (ws1_head _ Hs1) as (cs & rs & -> & _ & D & _). cbn [app]. exact D.
+      - eapply (okseq_cons _ _ _ _ _ _ _ _ _ _ any any); [apply ok_tag | apply (okseq_nil _ _ _ _ any) | intros; exact I].
+      - intros rest _. reflexivity. }
+    reflexivity.
+Qed.
+
+Lemma enc_astring_head s w : enc_astring s w -> exists c r, w = c :: r /\ nom_is_space c = false.
+Proof.
+  intros [s0 Hne Hs | s0 w0 Hs].
+  - destruct s0 as [|c r]; [contradiction|]. exists c, r. split; [reflexivity|].
+    cbn [forallb] in Hs. apply andb_true_iff in Hs. destruct Hs as [Hc _]. apply astring_char_ok in Hc.
+    destruct (nom_is_space c) eqn:E; [|reflexivity]. unfold nom_is_space in E. apply orb_true_iff in E.
+    destruct E as [E | E]; apply N.eqb_eq in E; subst c; discriminate Hc.
+  - destruct (enc_string_head s0 w0 Hs) as (c & r & -> & [-> | ->]); eexists _, _; (split; [reflexivity|]); reflexivity.
+Qed.
+
+Lemma ok_quota v body d : enc_quota v body -> OK (Alt rd_alts) d body v before_trailer.
+Proof.
+  intros [k s1 root wr s2 res wl Hk H1 Hroot Hu H2 Hres]. unfold kw in Hk.
+  apply (Ok_follow _ _ _ _ _ _ _ any); [|intros; exact I].
+  unfold rd_alts. cbn [def_rfc3501_x_response_data].
+  do 9 (apply (skip_kw _ _ (bs "QUOTA") _ _ _ _ _ Hk); [vm_compute; reflexivity|]).
+  apply ok_alt_here. apply (okref _ _ _ _ _ _ _ env_quota). unfold def_rfc2087_x_quota. fold ws_g.
+  destruct (ws1_head _ H2) as (c2 & r2 & E2 & _ & _ & A2).
+  destruct (enc_astring_head _ _ Hroot) as (cr & rr & Er & Sr).
+  eapply ok_map.
+  { apply ok_seq. regroup (k ++ (s1 ++ (wr ++ (s2 ++ (wl ++ []))))).
+    eapply (okseq_cons _ _ _ _ _ _ _ _ _ _ any any); [apply ok_tag_nc, Hk | | intros; exact I].
+    eapply (okseq_cons _ _ _ _ _ _ _ _ _ _ notspace any); [apply ok_ws1, H1 | | intros rest _; rewrite Er; exact Sr].
+    eapply (okseq_cons _ _ _ _ _ _ _ _ _ _ (stops_at cls_core_x_is_astring_char) any).
+    - eapply ok_map. { apply ok_astring_utf8; eassumption. } reflexivity.
+    - eapply (okseq_cons _ _ _ _ _ _ _ _ _ _ notspace any); [apply ok_ws1, H2 | | intros rest _; destruct Hres; reflexivity].
+      eapply (okseq_cons _ _ _ _ _ _ _ _ _ _ any any); [apply ok_quota_list, Hres | apply (okseq_nil _ _ _ _ any) | intros; exact I].
+    - intros rest _. rewrite E2. exact A2. }
+  reflexivity.
+Qed.
+
+Lemma ok_untagged v body d : enc_untagged v body -> OK (Alt rd_alts) d body v before_trailer.
+Proof.
+  intros [n w0 k Hn Hk | n w0 k Hn Hk | n w0 k Hn Hk | k earlier ke ws vi l w0 wl Hk Hke Hws Hvi Hl].
+  - apply ok_untagged_numeric. exists n, w0, k. split; [exact Hn|]. split; [reflexivity|]. left. split; [exact Hk | reflexivity].
+  - apply ok_untagged_numeric. exists n, w0, k. split; [exact Hn|]. split; [reflexivity|]. right. left. split; [exact Hk | reflexivity].
+  - apply ok_untagged_numeric. exists n, w0, k. split; [exact Hn|]. split; [reflexivity|]. right. right. split; [exact Hk | reflexivity].
+  - apply ok_vanished. exists k, earlier, ke, ws, vi, l, w0, wl.
+    split; [reflexivity|]. split; [reflexivity|]. split; [exact Hk|]. split; [exact Hke|]. split; [exact Hws|]. split; [exact Hvi | exact Hl].
+Qed.
+
+Theorem data_roundtrip v w : enc_data_response v w -> forall rest, parse (w ++ rest) = ROk rest v (nlen w).
+Proof.
+  intros [v0 body sp Hb Hsp] rest. apply untagged_lift; [|exact Hsp]. intro d.
+  destruct Hb as [v1 b1 H | v1 b1 H]; [apply ok_untagged, H | apply ok_quota, H].
+Qed.
+
+(* ---------------------------------------------------------------- status responses (RFC 3501 7.1) *)
+Lemma env_resp_cond : env f_rfc3501_x_resp_cond = Some def_rfc3501_x_resp_cond. Proof. reflexivity. Qed.
+Lemma env_status : env f_rfc3501_x_status = Some def_rfc3501_x_status. Proof. reflexivity. Qed.
+Lemma env_status_ok : env f_rfc3501_x_status_ok = Some def_rfc3501_x_status_ok. Proof. reflexivity. Qed.
+Lemma env_status_no : env f_rfc3501_x_status_no = Some def_rfc3501_x_status_no. Proof. reflexivity. Qed.
+Lemma env_status_bad : env f_rfc3501_x_status_bad = Some def_rfc3501_x_status_bad. Proof. reflexivity. Qed.
+Lemma env_status_preauth : env f_rfc3501_x_status_preauth = Some def_rfc3501_x_status_preauth. Proof. reflexivity. Qed.
+Lemma env_status_bye : env f_rfc3501_x_status_bye = Some def_rfc3501_x_status_bye. Proof. reflexivity. Qed.
+Lemma env_trailing : env f_rfc3501_x_trailing_resp_text = Some def_rfc3501_x_trailing_resp_text. Proof. reflexivity. Qed.
+Lemma env_resp_text' : env f_rfc3501_x_resp_text = Some def_rfc3501_x_resp_text. Proof. reflexivity. Qed.
+Lemma env_resp_text_code : env f_rfc3501_x_resp_text_code = Some def_rfc3501_x_resp_text_code. Proof. reflexivity. Qed.
+Lemma env_text' : env f_core_x_text = Some def_core_x_text. Proof. reflexivity. Qed.
+Lemma env_code_alert : env f_rfc3501_x_resp_text_code_alert = Some def_rfc3501_x_resp_text_code_alert. Proof. reflexivity. Qed.
+Lemma env_code_parse : env f_rfc3501_x_resp_text_code_parse = Some def_rfc3501_x_resp_text_code_parse. Proof. reflexivity. Qed.
+Lemma env_code_ro : env f_rfc3501_x_resp_text_code_read_only = Some def_rfc3501_x_resp_text_code_read_only. Proof. reflexivity. Qed.
+Lemma env_code_rw : env f_rfc3501_x_resp_text_code_read_write = Some def_rfc3501_x_resp_text_code_read_write. Proof. reflexivity. Qed.
+Lemma env_code_tc : env f_rfc3501_x_resp_text_code_try_create = Some def_rfc3501_x_resp_text_code_try_create. Proof. reflexivity. Qed.
+Lemma env_code_uv : env f_rfc3501_x_resp_text_code_uid_validity = Some def_rfc3501_x_resp_text_code_uid_validity. Proof. reflexivity. Qed.
+Lemma env_code_un : env f_rfc3501_x_resp_text_code_uid_next = Some def_rfc3501_x_resp_text_code_uid_next. Proof. reflexivity. Qed.
+Lemma env_code_us : env f_rfc3501_x_resp_text_code_unseen = Some def_rfc3501_x_resp_text_code_unseen. Proof. reflexivity. Qed.
+Lemma env_code_hm : env f_rfc4551_x_resp_text_code_highest_mod_seq = Some def_rfc4551_x_resp_text_code_highest_mod_seq. Proof. reflexivity. Qed.
+
+Lemma ok_status st w d : enc_status st w -> OK (Ref f_rfc3501_x_status DSame) d w st any.
+Proof.
+  intro H. apply (okref _ _ _ _ _ _ _ env_status). unfold def_rfc3501_x_status.
+  replace w with (w ++ []) by apply app_nil_r.
+  destruct H as [w Hk | w Hk | w Hk | w Hk | w Hk]; unfold kw in Hk.
+  - apply ok_alt_here. rewrite app_nil_r. apply (okref _ _ _ _ _ _ _ env_status_ok). unfold def_rfc3501_x_status_ok.
+    eapply ok_map. { apply ok_tag_nc, Hk. } reflexivity.
+  - do 1 skip "NO"%string Hk. apply ok_alt_here. rewrite app_nil_r. apply (okref _ _ _ _ _ _ _ env_status_no). unfold def_rfc3501_x_status_no.
+    eapply ok_map. { apply ok_tag_nc, Hk. } reflexivity.
+  - do 2 skip "BAD"%string Hk. apply ok_alt_here. rewrite app_nil_r. apply (okref _ _ _ _ _ _ _ env_status_bad). unfold def_rfc3501_x_status_bad.
+    eapply ok_map. { apply ok_tag_nc, Hk. } reflexivity.
+  - do 3 skip "PREAUTH"%string Hk. apply ok_alt_here. rewrite app_nil_r. apply (okref _ _ _ _ _ _ _ env_status_preauth). unfold def_rfc3501_x_status_preauth.
+    eapply ok_map. { apply ok_tag_nc, Hk. } reflexivity.
+  - do 4 skip "BYE"%string Hk. apply ok_alt_here. rewrite app_nil_r. apply (okref _ _ _ _ _ _ _ env_status_bye). unfold def_rfc3501_x_status_bye.
+    eapply ok_map. { apply ok_tag_nc, Hk. } reflexivity.
+Qed.
+
+Definition code_alts : list G :=
+  match def_rfc3501_x_resp_text_code with Map _ (Seq [_; Alt l; _]) => l | _ => [] end.
+
+Lemma ok_code_alt c w d : enc_code c w -> OK (Alt code_alts) d w c nodigit.
+Proof.
+  intro H. unfold code_alts. cbn [def_rfc3501_x_resp_text_code].
+  destruct H as [w Hk | w Hk | w Hk | w Hk | w Hk | k n w Hk Hn | k n w Hk Hn | k n w Hk Hn | k n w Hk Hn]; unfold kw in Hk.
+  - replace w with (w ++ []) by apply app_nil_r. apply ok_alt_here. rewrite app_nil_r. apply (Ok_follow _ _ _ _ _ _ _ any); [|intros; exact I].
+    apply (okref _ _ _ _ _ _ _ env_code_alert). unfold def_rfc3501_x_resp_text_code_alert. eapply ok_map. { apply ok_tag_nc, Hk. } reflexivity.
+  - replace w with (w ++ []) by apply app_nil_r. do 3 skip "PARSE"%string Hk. apply ok_alt_here. rewrite app_nil_r. apply (Ok_follow _ _ _ _ _ _ _ any); [|intros; exact I].
+    apply (okref _ _ _ _ _ _ _ env_code_parse). unfold def_rfc3501_x_resp_text_code_parse. eapply ok_map. { apply ok_tag_nc, Hk. } reflexivity.
+  - replace w with (w ++ []) by apply app_nil_r. do 8 skip "READ-ONLY"%string Hk. apply ok_alt_here. rewrite app_nil_r. apply (Ok_follow _ _ _ _ _ _ _ any); [|intros; exact I].
+    apply (okref _ _ _ _ _ _ _ env_code_ro). unfold def_rfc3501_x_resp_text_code_read_only. eapply ok_map. { apply ok_tag_nc, Hk. } reflexivity.
+  - replace w with (w ++ []) by apply app_nil_r. do 9 skip "READ-WRITE"%string Hk. apply ok_alt_here. rewrite app_nil_r. apply (Ok_follow _ _ _ _ _ _ _ any); [|intros; exact I].
+    apply (okref _ _ _ _ _ _ _ env_code_rw). unfold def_rfc3501_x_resp_text_code_read_write. eapply ok_map. { apply ok_tag_nc, Hk. } reflexivity.
+  - replace w with (w ++ []) by apply app_nil_r. do 10 skip "TRYCREATE"%string Hk. apply ok_alt_here. rewrite app_nil_r. apply (Ok_follow _ _ _ _ _ _ _ any); [|intros; exact I].
+    apply (okref _ _ _ _ _ _ _ env_code_tc). unfold def_rfc3501_x_resp_text_code_try_create. eapply ok_map. { apply ok_tag_nc, Hk. } reflexivity.
+  - do 5 skip "UIDVALIDITY "%string Hk. apply ok_alt_here.
+    apply (okref _ _ _ _ _ _ _ env_code_uv). unfold def_rfc3501_x_resp_text_code_uid_validity.
+    eapply ok_map. { apply (ok_kw2 _ _ _ _ _ _ nodigit Hk). apply ok_number, Hn. } reflexivity.
+  - do 6 skip "UIDNEXT "%string Hk. apply ok_alt_here.
+    apply (okref _ _ _ _ _ _ _ env_code_un). unfold def_rfc3501_x_resp_text_code_uid_next.
+    eapply ok_map. { apply (ok_kw2 _ _ _ _ _ _ nodigit Hk). apply ok_number, Hn. } reflexivity.
+  - do 7 skip "UNSEEN "%string Hk. apply ok_alt_here.
+    apply (okref _ _ _ _ _ _ _ env_code_us). unfold def_rfc3501_x_resp_text_code_unseen.
+    eapply ok_map. { apply (ok_kw2 _ _ _ _ _ _ nodigit Hk). apply ok_number, Hn. } reflexivity.
+  - do 11 skip "HIGHESTMODSEQ "%string Hk. apply ok_alt_here.
+    apply (okref _ _ _ _ _ _ _ env_code_hm). unfold def_rfc4551_x_resp_text_code_highest_mod_seq.
+    eapply ok_map.
+    { apply ok_seq. regroup (k ++ (w ++ [])).
+      eapply (okseq_cons _ _ _ _ _ _ _ _ _ _ any nodigit); [apply ok_tag_nc, Hk | | intros; exact I].
+      eapply (okseq_cons _ _ _ _ _ _ _ _ _ _ nodigit nodigit); [apply ok_number_64, Hn | apply (okseq_nil _ _ _ _ nodigit) | intros r Hr; exact Hr]. }
+    reflexivity.
+Qed.
+
+Lemma ok_resp_text_code c w d : enc_code c w -> OK (Ref f_rfc3501_x_resp_text_code DSame) d ([91] ++ w ++ [93]) c any.
+Proof.
+  intro H. apply (okref _ _ _ _ _ _ _ env_resp_text_code).
+  assert (Hshape : def_rfc3501_x_resp_text_code = Map (mk_action (PTuple [PWild; PVar "p1"; PWild]) (AVar "p1")) (Seq [Leaf (LTag (bs "[")); Alt code_alts; Leaf (LTag (bs "]"))])) by reflexivity.
+  rewrite Hshape. eapply ok_map.
+  { apply ok_seq. regroup ([91] ++ (w ++ ([93] ++ []))).
+    eapply (okseq_cons _ _ _ _ _ _ _ _ _ _ any any); [apply ok_tag | | intros; exact I].
+    eapply (okseq_cons _ _ _ _ _ _ _ _ _ _ nodigit any); [apply ok_code_alt, H | | intros rest _; reflexivity].
+    eapply (okseq_cons _ _ _ _ _ _ _ _ _ _ any any); [apply ok_tag | apply (okseq_nil _ _ _ _ any) | intros; exact I]. }
+  reflexivity.
+Qed.
+
+Definition at_cr (rest : list byte) : Prop := match rest with c :: _ => c = 13 | [] => False end.
+
+Lemma text_char_ok b : rfc_TEXT_CHAR b = true -> cls_core_x_is_text_char b = true /\ (b <=? 127) = true /\ is_cont b = false.
+Proof.
+  intro H. assert (Hb : b < 256).
+  { unfold rfc_TEXT_CHAR in H. apply andb_true_iff in H. destruct H as [H _]. apply andb_true_iff in H. destruct H as [H _]. apply rfc_char_small, H. }
+  pose proof (sweep (fun b => implb (rfc_TEXT_CHAR b) (cls_core_x_is_text_char b && (b <=? 127) && negb (is_cont b))) ltac:(vm_compute; reflexivity) b Hb) as Hx.
+  cbv beta in Hx. rewrite H in Hx. cbn [implb] in Hx. apply andb_true_iff in Hx. destruct Hx as [Hx H3]. apply andb_true_iff in Hx. destruct Hx as [H1 H2].
+  apply negb_true_iff in H3. repeat split; assumption.
+Qed.
+
+Lemma ok_text t d : forallb rfc_TEXT_CHAR t = true -> OK (Ref f_core_x_text DSame) d t (VBytes t) at_cr.
+Proof.
+  intro H. apply (okref _ _ _ _ _ _ _ env_text'). unfold def_core_x_text.
+  apply (Ok_follow _ _ _ _ _ _ _ (stops_at cls_core_x_is_text_char)); [|intros r Hr; destruct r as [|c r]; [destruct Hr|]; cbn in Hr; subst c; reflexivity].
+  eapply ok_mapres.
+  { apply ok_take_while. apply (forallb_impl rfc_TEXT_CHAR); [intros x Hx; exact (proj1 (text_char_ok x Hx)) | exact H]. }
+  cbn. unfold native_call. cbn. rewrite ascii_utf8; [reflexivity|].
+  apply (forallb_impl rfc_TEXT_CHAR); [intros x Hx; exact (proj1 (proj2 (text_char_ok x Hx))) | exact H].
+Qed.
+
+Lemma ok_resp_text code info w d : enc_resp_text code info w ->
+  OK (Ref f_rfc3501_x_resp_text DSame) d w (VTuple [code; info]) at_cr.
+Proof.
+  intro H. apply (okref _ _ _ _ _ _ _ env_resp_text'). unfold def_rfc3501_x_resp_text.
+  destruct H as [c t Ht Hc | code wc Hcode | code wc t Hcode Ht].
+  - (* no code: the bracketed form is not even tried beyond its first byte *)
+    eapply ok_map.
+    { apply ok_seq. regroup ([] ++ ((c :: t) ++ [])).
+      eapply (okseq_cons _ _ _ _ _ _ _ _ _ _ (fun rest => exists r, rest = c :: r) at_cr).
+      - apply ok_opt_none. intros rest (r & ->). apply (rejref _ _ _ _ _ env_resp_text_code). unfold def_rfc3501_x_resp_text_code.
+        apply rej_map, rej_seq_head, rej_tag. apply N.eqb_neq. intro E. apply Hc. symmetry. exact E.
+      - eapply (okseq_cons _ _ _ _ _ _ _ _ _ _ at_cr at_cr); [apply ok_text, Ht | apply (okseq_nil _ _ _ _ at_cr) | intros r Hr; exact Hr].
+      - intros rest _. cbn [app]. eexists. reflexivity. }
+    cbn. unfold native_call. cbn. reflexivity.
+  - eapply ok_map.
+    { apply ok_seq. regroup (([91] ++ wc ++ [93]) ++ ([] ++ [])).
+      eapply (okseq_cons _ _ _ _ _ _ _ _ _ _ any at_cr); [apply ok_opt_some, ok_resp_text_code, Hcode | | intros; exact I].
+      eapply (okseq_cons _ _ _ _ _ _ _ _ _ _ at_cr at_cr); [apply (ok_text [] _ eq_refl) | apply (okseq_nil _ _ _ _ at_cr) | intros r Hr; exact Hr]. }
+    cbn. unfold native_call. cbn. reflexivity.
+  - eapply ok_map.
+    { apply ok_seq. regroup (([91] ++ wc ++ [93]) ++ ((32 :: t) ++ [])).
+      eapply (okseq_cons _ _ _ _ _ _ _ _ _ _ any at_cr); [apply ok_opt_some, ok_resp_text_code, Hcode | | intros; exact I].
+      eapply (okseq_cons _ _ _ _ _ _ _ _ _ _ at_cr at_cr); [apply (ok_text (32 :: t)) | apply (okseq_nil _ _ _ _ at_cr) | intros r Hr; exact Hr].
+      cbn [forallb]. rewrite Ht. reflexivity. }
+    cbn. unfold native_call. cbn. unfold resp_text_action, str_slice_from1.
+    destruct t as [|x t']; [reflexivity|]. cbn [forallb] in Ht. apply andb_true_iff in Ht. destruct Ht as [Hx _].
+    rewrite (proj2 (proj2 (text_char_ok x Hx))). reflexivity.
+Qed.
+
+Lemma ok_trailing code info w d : enc_resp_text code info w ->
+  OK (Ref f_rfc3501_x_trailing_resp_text DSame) d ([32] ++ w) (VTuple [code; info]) at_cr.
+Proof.
+  intro H. apply (okref _ _ _ _ _ _ _ env_trailing). unfold def_rfc3501_x_trailing_resp_text.
+  eapply ok_map.
+  { apply ok_opt_some. apply ok_seq. regroup ([32] ++ (w ++ [])).
+    eapply (okseq_cons _ _ _ _ _ _ _ _ _ _ any at_cr); [apply ok_tag | | intros; exact I].
+    eapply (okseq_cons _ _ _ _ _ _ _ _ _ _ at_cr at_cr); [apply ok_resp_text, H | apply (okseq_nil _ _ _ _ at_cr) | intros r Hr; exact Hr]. }
+  cbn. unfold native_call. cbn. reflexivity.
+Qed.
+Lemma ok_trailing_none d : OK (Ref f_rfc3501_x_trailing_resp_text DSame) d [] (VTuple [VNone; VNone]) at_cr.
+Proof.
+  apply (okref _ _ _ _ _ _ _ env_trailing). unfold def_rfc3501_x_trailing_resp_text.
+  eapply ok_map.
+  { apply ok_opt_none. intros rest Hr. destruct rest as [|c r]; [destruct Hr|]. cbn in Hr. subst c. apply rej_seq_head, rej_tag. reflexivity. }
+  cbn. unfold native_call. cbn. reflexivity.
+Qed.
+
+Lemma ok_status_body v body d : enc_status_body v body -> OK (Alt rd_alts) d body v at_cr.
+Proof.
+  intro H. unfold rd_alts. cbn [def_rfc3501_x_response_data]. apply ok_alt_here.
+  apply (okref _ _ _ _ _ _ _ env_resp_cond). unfold def_rfc3501_x_resp_cond.
+  destruct H as [st ws Hs | st ws code info wt Hs Ht].
+  - eapply ok_map.
+    { apply ok_seq. regroup (ws ++ ([] ++ [])).
+      eapply (okseq_cons _ _ _ _ _ _ _ _ _ _ any at_cr); [apply ok_status, Hs | | intros; exact I].
+      eapply (okseq_cons _ _ _ _ _ _ _ _ _ _ at_cr at_cr); [apply ok_trailing_none | apply (okseq_nil _ _ _ _ at_cr) | intros r Hr; exact Hr]. }
+    reflexivity.
+  - eapply ok_map.
+    { apply ok_seq. regroup (ws ++ (([32] ++ wt) ++ [])).
+      eapply (okseq_cons _ _ _ _ _ _ _ _ _ _ any at_cr); [apply ok_status, Hs | | intros; exact I].
+      eapply (okseq_cons _ _ _ _ _ _ _ _ _ _ at_cr at_cr); [apply ok_trailing, Ht | apply (okseq_nil _ _ _ _ at_cr) | intros r Hr; exact Hr]. }
+    reflexivity.
+Qed.
+
+Theorem status_roundtrip v w : enc_status_response v w -> forall rest, parse (w ++ rest) = ROk rest v (nlen w).
+Proof.
+  intros [v0 body Hb] rest.
+  pose proof (untagged_lift_gen body v0 at_cr [] (fun d => ok_status_body v0 body d Hb) spaces_nil (fun r => eq_refl) rest) as H.
+  cbn [app] in H. exact H.
+Qed.
+
+(* ---------------------------------------------------------------- tagged completions *)
+Lemma env_tagged : env f_rfc3501_x_response_tagged = Some def_rfc3501_x_response_tagged. Proof. reflexivity. Qed.
+Lemma env_imap_tag : env f_rfc3501_x_imap_tag = Some def_rfc3501_x_imap_tag. Proof. reflexivity. Qed.
+
+Lemma tag_char_ok b : rfc_TAG_CHAR b = true ->
+  cls_rfc3501_x_is_tag_char b = true /\ (b <=? 127) = true /\ (43 =? b) = false /\ (42 =? b) = false.
+Proof.
+  intro H. assert (Hb : b < 256).
+  { unfold rfc_TAG_CHAR, rfc_ASTRING_CHAR, rfc_ATOM_CHAR, rfc_resp_specials in H. apply andb_true_iff in H. destruct H as [H _].
+    apply orb_true_iff in H. destruct H as [H|H]; [apply andb_true_iff in H; destruct H as [H _]; apply rfc_char_small, H | apply N.eqb_eq in H; lia]. }
+  pose proof (sweep (fun b => implb (rfc_TAG_CHAR b) (cls_rfc3501_x_is_tag_char b && (b <=? 127) && negb (43 =? b) && negb (42 =? b))) ltac:(vm_compute; reflexivity) b Hb) as Hx.
+  cbv beta in Hx. rewrite H in Hx. cbn [implb] in Hx.
+  apply andb_true_iff in Hx. destruct Hx as [Hx H4]. apply andb_true_iff in Hx. destruct Hx as [Hx H3]. apply andb_true_iff in Hx. destruct Hx as [H1 H2].
+  apply negb_true_iff in H3, H4. repeat split; assumption.
+Qed.
+
+Lemma ok_imap_tag tag d : tag <> [] -> forallb rfc_TAG_CHAR tag = true ->
+  OK (Ref f_rfc3501_x_imap_tag DSame) d tag (VCon "RequestId" [VBytes tag]) (stops_at cls_rfc3501_x_is_tag_char).
+Proof.
+  intros Hne Ht. apply (okref _ _ _ _ _ _ _ env_imap_tag). unfold def_rfc3501_x_imap_tag.
+  eapply ok_map.
+  { eapply ok_mapres.
+    { apply ok_take_while1; [|exact Hne]. apply (forallb_impl rfc_TAG_CHAR); [intros x Hx; exact (proj1 (tag_char_ok x Hx)) | exact Ht]. }
+    cbn. unfold native_call. cbn. rewrite ascii_utf8; [reflexivity|].
+    apply (forallb_impl rfc_TAG_CHAR); [intros x Hx; exact (proj1 (proj2 (tag_char_ok x Hx))) | exact Ht]. }
+  reflexivity.
+Qed.
+
+Lemma env_continue_req : env f_rfc3501_x_continue_req = Some def_rfc3501_x_continue_req. Proof. reflexivity. Qed.
+
+Lemma skip_to_tagged c r v (F : list byte -> Prop) : rfc_TAG_CHAR c = true ->
+  OK (Ref f_rfc3501_x_response_tagged DSame) 0%nat (c :: r) v F -> OK def_parser_x_parse_response 0%nat (c :: r) v F.
+Proof.
+  intros Hc H. destruct (tag_char_ok c Hc) as (_ & _ & H43 & H42). unfold def_parser_x_parse_response.
+  apply ok_alt_skip.
+  { intros x _. cbn [app]. apply (rejref _ _ _ _ _ env_continue_req). unfold def_rfc3501_x_continue_req.
+    apply rej_map, rej_seq_head, rej_tag. exact H43. }
+  apply ok_alt_skip.
+  { intros x _. cbn [app]. apply (rejref _ _ _ _ _ env_response_data). rewrite response_data_shape.
+    apply rej_map, rej_seq_head. cbn [bs N_of_ascii]. apply rej_tag. exact H42. }
+  apply ok_alt_here. exact H.
+Qed.
+
+Theorem tagged_roundtrip v w : enc_tagged_response v w -> forall rest, parse (w ++ rest) = ROk rest v (nlen w).
+Proof.
+  intros H rest. unfold parse.
+  assert (HOK : OK def_parser_x_parse_response 0%nat w v any).
+  { destruct H as [tag st ws Hne Ht Hs | tag st ws code info wt Hne Ht Hs Hrt].
+    - destruct tag as [|c r]; [contradiction|]. pose proof Ht as Ht0. cbn [forallb] in Ht. apply andb_true_iff in Ht. destruct Ht as [Hc _].
+      change ((c :: r) ++ [32] ++ ws ++ [13; 10]) with (c :: (r ++ [32] ++ ws ++ [13; 10])). apply (skip_to_tagged _ _ _ _ Hc).
+      change (c :: (r ++ [32] ++ ws ++ [13; 10])) with ((c :: r) ++ [32] ++ ws ++ [13; 10]).
+      apply (okref _ _ _ _ _ _ _ env_tagged). unfold def_rfc3501_x_response_tagged.
+      eapply ok_map.
+      { apply ok_seq. regroup ((c :: r) ++ ([32] ++ (ws ++ ([] ++ ([13; 10] ++ []))))).
+        eapply (okseq_cons _ _ _ _ _ _ _ _ _ _ (stops_at cls_rfc3501_x_is_tag_char) any); [apply (ok_imap_tag (c :: r) _ Hne Ht0) | | intros; reflexivity].
+        eapply (okseq_cons _ _ _ _ _ _ _ _ _ _ any any); [apply ok_tag | | intros; exact I].
+        eapply (okseq_cons _ _ _ _ _ _ _ _ _ _ any any); [apply ok_status, Hs | | intros; exact I].
+        eapply (okseq_cons _ _ _ _ _ _ _ _ _ _ at_cr any); [apply ok_trailing_none | | intros; reflexivity].
+        eapply (okseq_cons _ _ _ _ _ _ _ _ _ _ any any); [apply ok_tag | apply (okseq_nil _ _ _ _ any) | intros; exact I]. }
+      reflexivity.
+    - destruct tag as [|c r]; [contradiction|]. pose proof Ht as Ht0. cbn [forallb] in Ht. apply andb_true_iff in Ht. destruct Ht as [Hc _].
+      change ((c :: r) ++ [32] ++ ws ++ [32] ++ wt ++ [13; 10]) with (c :: (r ++ [32] ++ ws ++ [32] ++ wt ++ [13; 10])). apply (skip_to_tagged _ _ _ _ Hc).
+      change (c :: (r ++ [32] ++ ws ++ [32] ++ wt ++ [13; 10])) with ((c :: r) ++ [32] ++ ws ++ [32] ++ wt ++ [13; 10]).
+      apply (okref _ _ _ _ _ _ _ env_tagged). unfold def_rfc3501_x_response_tagged.
+      eapply ok_map.
+      { apply ok_seq. regroup ((c :: r) ++ ([32] ++ (ws ++ (([32] ++ wt) ++ ([13; 10] ++ []))))).
+        eapply (okseq_cons _ _ _ _ _ _ _ _ _ _ (stops_at cls_rfc3501_x_is_tag_char) any); [apply (ok_imap_tag (c :: r) _ Hne Ht0) | | intros; reflexivity].
+        eapply (okseq_cons _ _ _ _ _ _ _ _ _ _ any any); [apply ok_tag | | intros; exact I].
+        eapply (okseq_cons _ _ _ _ _ _ _ _ _ _ any any); [apply ok_status, Hs | | intros; exact I].
+        eapply (okseq_cons _ _ _ _ _ _ _ _ _ _ at_cr any); [apply ok_trailing, Hrt | | intros; reflexivity].
+        eapply (okseq_cons _ _ _ _ _ _ _ _ _ _ any any); [apply ok_tag | apply (okseq_nil _ _ _ _ any) | intros; exact I]. }
+      reflexivity. }
   apply HOK; [| rewrite ?app_length; cbn [length]; lia | exact I].
   pose proof fuel_enough as Hf. apply N.leb_le in Hf. exact Hf.
 Qed.
